@@ -103,6 +103,8 @@ module Coq_Pos :
 
   val coq_land : positive -> positive -> n
 
+  val coq_lxor : positive -> positive -> n
+
   val shiftl : positive -> n -> positive
 
   val iter_op : ('a1 -> 'a1 -> 'a1) -> positive -> 'a1 -> 'a1
@@ -155,6 +157,8 @@ module N :
   val coq_lor : n -> n -> n
 
   val coq_land : n -> n -> n
+
+  val coq_lxor : n -> n -> n
 
   val shiftl : n -> n -> n
 
@@ -233,7 +237,11 @@ val osub : n -> n -> n outcome
 
 val oadd : n -> n -> n -> n outcome
 
+val omul : n -> n -> n -> n outcome
+
 val oshr : n -> n -> n -> n outcome
+
+val oshl : n -> n -> n -> n outcome
 
 val oassert : bool -> unit outcome
 
@@ -261,6 +269,8 @@ val set_last : 'a1 list -> 'a1 -> 'a1 list
 
 val maxN : n list -> n
 
+val sumN : n list -> n
+
 val rank_spec : n list -> n -> n -> n
 
 val select_from : n list -> n -> n -> n -> n option
@@ -276,6 +286,24 @@ val lINE_MASK : n
 val pUSH_LINE_MASK : n
 
 val pUSH_POS_STEP : n
+
+val qV_SYM_MASK : n
+
+val qV_WORD_SHIFT : n
+
+val qV_WORD_MASK : n
+
+val qV_LOW_PLANE : n
+
+val qVG_WORD_SHIFT : n
+
+val qVG_WORD_MASK : n
+
+val qVG_LOW_PLANE : n
+
+val qVR_WORD_SHIFT : n
+
+val qVR_WORD_MASK : n
 
 val qV_LEN_SHIFT : n
 
@@ -308,6 +336,24 @@ val sELECT_NUM_SAMPLES : n
 val mAX_LEN : n
 
 val rANK_BLOCK_MASK : n
+
+val k_ONES_STEP4 : n
+
+val k_ONES_STEP8 : n
+
+val k_LAMBDAS_STEP8 : n
+
+val sIW_M1 : n
+
+val sIW_M2 : n
+
+val sIW_M3 : n
+
+val sIW_PLACE_MUL : n
+
+val sIW_NOTFOUND : n
+
+val sIW_BYTE_MASK : n
 
 val lINE_SYMS : n
 
@@ -483,3 +529,33 @@ val qwt_estimate_walk :
 val qwt_rank_prefetch_unchecked : n -> n -> qwt -> n -> n -> n outcome
 
 val qwt_rank_prefetch : n -> n -> qwt -> n -> n -> n option outcome
+
+val sel_table : n list
+
+val popcount_pos : positive -> n
+
+val popcount : n -> n
+
+val m64 : n
+
+val select_in_word : n -> n -> n outcome
+
+val select_in_word_u128 : n -> n -> n outcome
+
+val popcnt_wide : nat -> n list -> n
+
+val msb_w : n -> n -> n outcome
+
+val m128 : n
+
+val qline_set_symbol : n list -> n -> n -> n list outcome
+
+val qline_get_unchecked : n list -> n -> n outcome
+
+val qline_normalize : n list -> n -> (n * n) outcome
+
+val qline_rank_unchecked : n list -> n -> n -> n outcome
+
+val plane_bits : (n -> n) -> n list -> n
+
+val pack_qline : n list -> n list
